@@ -905,6 +905,27 @@ fn top_acts(world: &mut World, t: usize, script: Vec<SAct>)
                 log(plus); log(minus);
                 return
             }
+            SAct::SpawnSys(def) =>
+            {
+                // `World`-level spawning entry points (`ReactWorldExt`)
+                if let Some(excl) = SH.with(|s| s.borrow().defs.get(def).map(|d| d.excl))
+                {
+                    let name = next_system_name();
+                    let sys = if name % 2 == 0
+                    {
+                        if excl { world.spawn_system_command(make_exclusive(def, name)) } else { world.spawn_system_command(make_ordinary(def, name, None)) }
+                    }
+                    else
+                    {
+                        if excl { world.spawn_system_command_from(SystemCommandCallback::new(make_exclusive(def, name))) }
+                        else { world.spawn_system_command_from(SystemCommandCallback::new(make_ordinary(def, name, None))) }
+                    };
+                    new_system_name(*sys);
+                    SH.with(|s| { s.borrow_mut().ready.insert(*sys); });
+                }
+                log(plus); log(minus);
+                return
+            }
             _ => {}
         }
     }
